@@ -22,6 +22,7 @@ func vRoundTrip(m *Msg) {
 	// --- reference decoder over the emitted bytes
 	id, bits := m.Header.Pack()
 	verifrt.Assert(refU16(out, 0) == id && refU16(out, 2) == bits, "header id/flags")
+	verifrt.Assert(id == m.Header.ID && bits == refHeaderBits(m.Header), "flag word laid out as RFC 1035 4.1.1 / RFC 4035 3.1 (independent of the codec's own constants)")
 	verifrt.Assert(int(refU16(out, 4)) == len(m.Questions) && int(refU16(out, 6)) == len(m.Answers) &&
 		int(refU16(out, 8)) == len(m.Authorities) && int(refU16(out, 10)) == len(m.Additionals), "section counts")
 	off := 12
@@ -138,5 +139,52 @@ func VerifH_C02_PointerLimit_S3() {
 	r1.ResourceHdr = ResourceHdr{Name: vName("r1.owner", [][]int{{1, 1}, {2, 1}, {1, 1, 1}}[sh]), Type: TypeCNAME, Class: 1, TTL: verifrt.U32("r1.ttl")}
 	r1.NameData = vNameAny("r1.rdname", 6)
 	m.Answers = append(m.Answers, r1)
+	vRoundTrip(m)
+}
+
+// refHeaderBits: the second 16-bit word of the header, from the RFCs:
+//
+//	QR(15) Opcode(14..11) AA(10) TC(9) RD(8) RA(7) Z(6) AD(5) CD(4) RCODE(3..0)
+func refHeaderBits(h Header) uint16 {
+	b := (uint16(h.OpCode)&0xF)<<11 | uint16(h.RCode)&0xF
+	b |= uint16(verifrt.Ite(h.Response, 0x8000, 0))
+	b |= uint16(verifrt.Ite(h.Authoritative, 0x0400, 0))
+	b |= uint16(verifrt.Ite(h.Truncated, 0x0200, 0))
+	b |= uint16(verifrt.Ite(h.RecursionDesired, 0x0100, 0))
+	b |= uint16(verifrt.Ite(h.RecursionAvailable, 0x0080, 0))
+	b |= uint16(verifrt.Ite(h.AuthenticData, 0x0020, 0))
+	b |= uint16(verifrt.Ite(h.CheckingDisabled, 0x0010, 0))
+	return b
+}
+
+// VerifH_C02_MaxLengthName: names at the upper end of what the decoder accepts — 253 and 254 octets of labels (254 and
+// 255 on the wire), as the owner of a question and of an A record — still round-trip, and Len() still equals the
+// uncompressed size (every caller sizes its buffer from Len()).
+func VerifH_C02_MaxLengthName() {
+	verifrt.Unwind(400)
+	last := 60 + verifrt.Choose("last-label", 2) // 63+63+63+60 (+4 length octets) = 253, ..61 = 254
+	mk := func(tag string) Name {
+		b := pool.GetBuf(3*64 + 1 + last)
+		off := 0
+		for _, l := range []int{63, 63, 63, last} {
+			b[off] = byte(l)
+			off++
+			for i := 0; i < l; i++ {
+				b[off] = 'a'
+				off++
+			}
+		}
+		b[1] = verifrt.Byte(tag + ".first")
+		b[len(b)-1] = verifrt.Byte(tag + ".last")
+		return Name(b)
+	}
+	m := NewMsg()
+	m.Header = Header{Response: true}
+	q := NewQuestion()
+	q.Name, q.Type, q.Class = mk("q"), TypeA, 1
+	m.Questions = append(m.Questions, q)
+	a := NewA()
+	a.ResourceHdr = ResourceHdr{Name: mk("a"), Type: TypeA, Class: 1, TTL: 5}
+	m.Answers = append(m.Answers, a)
 	vRoundTrip(m)
 }
